@@ -84,6 +84,7 @@ class Env:
         os.makedirs(self.tmp)
 
     def __enter__(self):
+        core.import_repo()      # importing cnfgen runs 'git describe': must happen before PATH is narrowed
         self.saved = {k: os.environ.get(k) for k in ('PATH', 'TMPDIR', 'STUB_CFG')}
         self.saved_tempdir = tempfile.tempdir
         os.environ['PATH'] = self.bench.bin
@@ -311,7 +312,7 @@ def bounded_solve(ctx):
         for conv in CONVS:
             shapes = xs.SHAPES_FILEOUT if conv == 'filein_fileout' else xs.SHAPES_STDOUT
             for shape in shapes:
-                hows = hows_all if (thorough or shape in ('plain', 'split')) else ['name']
+                hows = hows_all if (thorough or shape == 'plain') else (['name', 'default'] if shape == 'split' else ['name'])
                 for how in hows:
                     tasks.append(('solve', dict(desc=desc, conv=conv, shape=shape, how=how)))
     # verbose output must not change the result
